@@ -374,6 +374,18 @@ func main() {
 		}
 		return fmt.Sprintf("def noVaryHash : String := %s\n", strconv.Quote(v.(string)))
 	})
+	table(&b, "indexOpaquePrefix", func() string {
+		v, ok := constOf(constValue(parse(root, "internal/entry.go"), "jsonOpaquePrefix"))
+		if !ok {
+			fail("jsonOpaquePrefix is not a string literal")
+		}
+		// as a list of code points, so that the NUL byte needs no string escape
+		cps := []string{}
+		for _, r := range v.(string) {
+			cps = append(cps, strconv.Itoa(int(r)))
+		}
+		return fmt.Sprintf("def indexOpaquePrefix : List Nat := [%s]\n", strings.Join(cps, ", "))
+	})
 	table(&b, "locationHeaders", func() string {
 		ci := parse(root, "internal/cacheinvalidator.go")
 		var locs []string
